@@ -93,6 +93,8 @@ type state struct {
 	svsplit [][4]uint64    // model ops, per version of the labelmap mutations
 	mapops  map[int][]string
 	mapsegs map[int][]string // per version: finished segments (between restarts) of model ops
+	vops    []string         // label mutations of ALL versions in the order made, "(v, op)", current segment
+	vsegs   []string         // finished segments of vops
 	haveLM  bool
 	nm      map[string]string // logical instance name -> current name (instances can be renamed)
 }
@@ -237,7 +239,9 @@ func (s *state) exec(o hop) {
 		if st == 200 {
 			var r struct{ MutationID uint64 }
 			json.Unmarshal(b, &r)
-			s.mapops[o.V] = append(s.mapops[o.V], fmt.Sprintf("OMerge %d %d %s", r.MutationID, o.Labels[0], lib.CoqNList(o.Labels[1:])))
+			mop := fmt.Sprintf("OMerge %d %d %s", r.MutationID, o.Labels[0], lib.CoqNList(o.Labels[1:]))
+			s.mapops[o.V] = append(s.mapops[o.V], mop)
+			s.vops = append(s.vops, fmt.Sprintf("(%d, %s)", o.V, mop))
 		}
 	case "cleave":
 		st, b := post(fmt.Sprintf("/api/node/%s/%s/cleave/%d", u, s.n("lm"), o.N), o.Labels)
@@ -245,7 +249,9 @@ func (s *state) exec(o hop) {
 			var r struct{ CleavedLabel, MutationID uint64 }
 			json.Unmarshal(b, &r)
 			s.lmLabel[r.CleavedLabel] = true
-			s.mapops[o.V] = append(s.mapops[o.V], fmt.Sprintf("OCleave %d %d %s", r.MutationID, r.CleavedLabel, lib.CoqNList(o.Labels)))
+			mop := fmt.Sprintf("OCleave %d %d %s", r.MutationID, r.CleavedLabel, lib.CoqNList(o.Labels))
+			s.mapops[o.V] = append(s.mapops[o.V], mop)
+			s.vops = append(s.vops, fmt.Sprintf("(%d, %s)", o.V, mop))
 		}
 	case "splitsv":
 		blk, ok := s.blockOf[o.N]
@@ -257,7 +263,9 @@ func (s *state) exec(o hop) {
 			var r struct{ SplitSupervoxel, RemainSupervoxel, MutationID uint64 }
 			json.Unmarshal(b, &r)
 			s.lmLabel[r.SplitSupervoxel], s.lmLabel[r.RemainSupervoxel] = true, true
-			s.mapops[o.V] = append(s.mapops[o.V], fmt.Sprintf("OSvSplit %d %d %d %d", r.MutationID, o.N, r.RemainSupervoxel, r.SplitSupervoxel))
+			mop := fmt.Sprintf("OSvSplit %d %d %d %d", r.MutationID, o.N, r.RemainSupervoxel, r.SplitSupervoxel)
+			s.mapops[o.V] = append(s.mapops[o.V], mop)
+			s.vops = append(s.vops, fmt.Sprintf("(%d, %s)", o.V, mop))
 		}
 	case "sync": // Key = logical instance, Val = comma list of logical instances ("" clears), Kill = replace
 		var names []string
@@ -847,6 +855,39 @@ func execHistory(c jcase) (ex execution) {
 					ex.adds = append(ex.adds, pendingAdd{"maplog", fmt.Sprintf("(CMapLog [%s] %s %s)", strings.Join(segs, "; "),
 						parseSplits(find(before, "lm-splits", fmt.Sprint(v))), parseSplits(find(after, "lm-splits", fmt.Sprint(v)))), fmt.Sprintf("maplog/%s/%d/%d", c.Name, restarts, v)})
 				}
+				// round 4: the versioned model (Model.MapLogV) on every history, one version or many
+				{
+					var vsAll []int
+					for _, n := range riB.DAG.Nodes {
+						vsAll = append(vsAll, n.VersionID)
+					}
+					sort.Ints(vsAll)
+					byV := map[int]nodeInfo{}
+					for _, n := range riB.DAG.Nodes {
+						byV[n.VersionID] = n
+					}
+					var ancs, obs []string
+					for _, v := range vsAll {
+						var chain []string
+						for cur, ok := v, true; ok; {
+							chain = append(chain, fmt.Sprint(cur))
+							n := byV[cur]
+							if len(n.Parents) == 0 {
+								break
+							}
+							cur = n.Parents[0]
+							_, ok = byV[cur]
+						}
+						ancs = append(ancs, fmt.Sprintf("(%d, [%s])", v, strings.Join(chain, "; ")))
+						obs = append(obs, fmt.Sprintf("(%d, %s, %s)", v, parseSplits(find(before, "lm-splits", fmt.Sprint(v))), parseSplits(find(after, "lm-splits", fmt.Sprint(v)))))
+					}
+					segs := append(append([]string{}, s.vsegs...), "["+strings.Join(s.vops, "; ")+"]")
+					ex.adds = append(ex.adds, pendingAdd{"maplogv", fmt.Sprintf("(CMapLogV [%s] [%s] [%s])", strings.Join(ancs, "; "), strings.Join(segs, "; "), strings.Join(obs, "; ")),
+						fmt.Sprintf("maplogv/%s/%d", c.Name, restarts)})
+					ex.dist["maplogv:versions-with-mutations"] += mutVersions(s)
+					s.vsegs = append(s.vsegs, "["+strings.Join(s.vops, "; ")+"]")
+					s.vops = nil
+				}
 				for _, v := range vs {
 					s.mapsegs[v] = append(s.mapsegs[v], "["+strings.Join(s.mapops[v], "; ")+"]")
 					s.mapops[v] = nil
@@ -1007,6 +1048,18 @@ func corpus() []jcase {
 			{Op: "commit", V: 2}, {Op: "commit", V: 3}, {Op: "commit", V: 4},
 			{Op: "merge", Parents: []int{4, 2}}, {Op: "restart"}, {Op: "restart", Kill: true},
 			{Op: "commit", V: 5}, {Op: "merge", Parents: []int{5, 3, 1}}, {Op: "merge", Parents: []int{3, 4, 2}}, {Op: "restart"}, {Op: "restart"}}},
+		// round 4: REFUSED requests between the accepted ones (merge with an uncommitted parent, a parent
+		// listed twice, a single parent; newversion / branch on an open node; a branch name in use).
+		// The repaired code leaves no trace of them: the accepted merge gets version 4, the cache of
+		// branch heads is not refreshed by them, and the restarted server resolves every name alike.
+		{Kind: "history", Name: "refused-requests", Ops: []hop{
+			{Op: "commit", V: 1}, {Op: "newversion", V: 1}, {Op: "branch", V: 1, Branch: "b1"},
+			{Op: "merge", Parents: []int{2, 3}}, {Op: "newversion", V: 2}, {Op: "commit", V: 2},
+			{Op: "merge", Parents: []int{2, 2}}, {Op: "merge", Parents: []int{2, 3}}, {Op: "merge", Parents: []int{2}},
+			{Op: "branch", V: 2, Branch: "b1"}, {Op: "restart"},
+			{Op: "merge", Parents: []int{3, 2}}, {Op: "commit", V: 3}, {Op: "merge", Parents: []int{3, 2}},
+			{Op: "branch", V: 2, Branch: "b2"}, {Op: "merge", Parents: []int{4, 5}}, {Op: "restart", Kill: true},
+			{Op: "commit", V: 4}, {Op: "merge", Parents: []int{4, 4, 3}}, {Op: "newversion", V: 4}, {Op: "restart"}}},
 		{Kind: "history", Name: "merge-heads", Ops: []hop{
 			{Op: "commit", V: 1}, {Op: "newversion", V: 1}, {Op: "branch", V: 1, Branch: "b1"},
 			{Op: "commit", V: 2}, {Op: "commit", V: 3}, {Op: "merge", Parents: []int{2, 3}}, {Op: "restart"}}},
@@ -1030,6 +1083,17 @@ func corpus() []jcase {
 			{Op: "commit", V: 1}, {Op: "newversion", V: 1},
 			{Op: "cleave", V: 2, N: 1, Labels: []uint64{2}}, {Op: "lmmerge", V: 2, Labels: []uint64{4, 5}}, {Op: "maxlabel", V: 2, N: 50},
 			{Op: "restart"}, {Op: "commit", V: 2}, {Op: "newversion", V: 2}, {Op: "lmmerge", V: 3, Labels: []uint64{4, 1}}, {Op: "restart", Kill: true}}},
+		// round 4: supervoxel splits at several versions of one ancestry and on a sibling (the same
+		// supervoxel split independently on both), merges and a cleave in between; GET supervoxel-splits
+		// of every version (its whole ancestry) against Model.MapLogV, live and replayed
+		{Kind: "history", Name: "splits-across-versions", Ops: []hop{
+			{Op: "ingest", V: 1, Labels: []uint64{1, 2, 3, 4, 5, 6}}, {Op: "lmmerge", V: 1, Labels: []uint64{1, 2, 3}},
+			{Op: "splitsv", V: 1, N: 2}, {Op: "commit", V: 1}, {Op: "newversion", V: 1}, {Op: "branch", V: 1, Branch: "b1"},
+			{Op: "splitsv", V: 2, N: 3}, {Op: "splitsv", V: 3, N: 4}, {Op: "cleave", V: 3, N: 1, Labels: []uint64{3}},
+			{Op: "restart"},
+			{Op: "splitsv", V: 2, N: 4}, {Op: "commit", V: 2}, {Op: "newversion", V: 2}, {Op: "lmmerge", V: 4, Labels: []uint64{5, 6}},
+			{Op: "splitsv", V: 4, N: 5}, {Op: "splitsv", V: 3, N: 6}, {Op: "restart", Kill: true},
+			{Op: "commit", V: 3}, {Op: "commit", V: 4}, {Op: "merge", Parents: []int{4, 3}}, {Op: "splitsv", V: 5, N: 6}, {Op: "restart"}}},
 		// per-version counters set on SIBLING branches to values below what another branch already
 		// holds (so below the instance-wide maximum), restarted, then continued on a grandchild
 		{Kind: "history", Name: "sibling-counters", Ops: []hop{
@@ -1125,7 +1189,14 @@ func randomHistory(rng *lib.Rand, i int) jcase {
 					cands = append(cands, m.VersionID)
 				}
 			}
-			if n.Locked && len(cands) > 0 {
+			if len(nodes) > 1 && rng.Chance(0.3) {
+				// any two or three nodes, open ones and repetitions included: mostly refused
+				ps := []int{n.VersionID, nodes[rng.Intn(len(nodes))].VersionID}
+				if rng.Chance(0.3) {
+					ps = append(ps, nodes[rng.Intn(len(nodes))].VersionID)
+				}
+				do(hop{Op: "merge", Parents: ps})
+			} else if n.Locked && len(cands) > 0 {
 				// parents in any order (the first one is the lineage), two or three of them
 				ps := []int{n.VersionID, cands[rng.Intn(len(cands))]}
 				if len(cands) > 1 && rng.Chance(0.4) {
@@ -1231,7 +1302,7 @@ func main() {
 	log.SetOutput(io.Discard)
 	rng := lib.NewRand(o.Seed)
 	run := lib.NewRun("C03", o)
-	run.Header("From DV Require Import Base.Prelude Model.Persist Model.MapLog Model.C04Run Model.C03Run.", "Local Open Scope N_scope.")
+	run.Header("From DV Require Import Base.Prelude Model.Persist Model.Heads Model.MapLog Model.MapLogV Model.C04Run Model.C03Run.", "Local Open Scope N_scope.")
 	if o.Replay != "" {
 		var c jcase
 		if err := lib.LoadReplay(o.Replay, &c); err != nil {
